@@ -30,6 +30,7 @@ func H_C14(tbl, router, stage int) {
 	h := vNewH(t)
 	c := h.build(vRouter(router))
 	pathCap, maxSeg := 11, 3
+	_, pathCap, maxSeg = vDeep(stage, pathCap, maxSeg)
 	q := vReq{method: nondetString("method", 7)}
 	p := nondetString("path", pathCap)
 	verifAssume(!strings.HasSuffix(p, "/"))
